@@ -7,8 +7,9 @@ oracle:         (a) every document is loaded in 4 fresh interpreters, PYTHONHASH
                 variables, ordered equations, get_state_variables, get_derived_quantities, get_derivatives,
                 get_equations_for(all) must be identical; (b) each permutation kind (units, groups, connections,
                 map_variables, the two ends of a connection, equations / math elements, components) is applied and
-                the order-insensitive observables must be unchanged (for all kinds but `components` also the
-                ordered queries)
+                the order-insensitive observables must be unchanged, the name-sorted queries
+                (get_equations_for in all its variants, get_free_variable) identical for every kind, the
+                order_added-sorted queries identical for every kind but `components`
 """
 import glob
 import json
@@ -22,7 +23,10 @@ import vlib
 
 GEN_DEPS = ('builtins', 'prefixes')
 SEEDS = ['0', '1', '2', 'random']
-ORDERED_KEYS = ('var_order', 'eq_order', 'states', 'derived', 'derivatives', 'eqs_for', 'free')
+ORDERED_KEYS = ('var_order', 'eq_order', 'states', 'derived', 'derivatives', 'eqs_for', 'eqs_for_units', 'eqs_for_top',
+                'eqs_for_each', 'free')
+# name-sorted queries: their answers depend on the equation graph only, never on the order of anything in the file
+GRAPH_KEYS = ('eqs_for', 'eqs_for_units', 'eqs_for_top', 'eqs_for_each', 'free')
 
 
 def gen_cases(ctx):
@@ -30,7 +34,9 @@ def gen_cases(ctx):
     cases = []
     for i in range(n):
         seed = ctx.seed * 100000 + i
-        doc = G.gen_valid(seed)
+        # every third document has variables whose names differ only in case (k / K, rate / Rate) in one component and
+        # in one topological layer: name-sorted queries must not fall back to the order of the <apply> elements
+        doc = G.gen_valid(seed, case_names=(i % 3 == 1))
         rng = random.Random(seed + 3)
         perms = []
         for kind in G.PERM_KINDS:
@@ -141,12 +147,12 @@ def evaluate(ctx, cases, obs, use_model=True):
                 elif sorted(map(str, base['vars'])) != sorted(map(str, o['vars'])):
                     what = 'variable attributes (units, initial value, cmeta id, assigned_to)'
                 else:
-                    keys = ('states', 'derived', 'derivatives', 'eqs_for', 'free')
+                    keys = ('states', 'derived', 'derivatives')
                     if kind != 'components':
-                        keys = keys + ('var_order',)
-                        bad = [k for k in keys if base.get(k) != o.get(k)]
+                        bad = [k for k in keys + ('var_order',) if base.get(k) != o.get(k)]
                     else:
                         bad = [k for k in keys if not same_set(base.get(k), o.get(k))]
+                    bad += [k for k in GRAPH_KEYS if base.get(k) != o.get(k)]
                     if bad:
                         what = 'the ordered query %s: %r' % (bad[0], first_diff(base.get(bad[0]), o.get(bad[0])))
                     elif kind in ('units', 'groups', 'ends') and base['eq_order'] != o['eq_order']:
